@@ -226,10 +226,16 @@ class Gf180Walker(h.HierarchyWalker):
 
         mod = self.cap_module(params)
 
-        w = self.scale_param(params.w, 1000 * MILLI)
-        l = self.scale_param(params.l, 1000 * MILLI)
+        # Sizes and multiplier which are not given take the device's own defaults
+        kwargs = dict()
+        if params.w is not None:
+            kwargs["c_width"] = self.scale_param(params.w, None)
+        if params.l is not None:
+            kwargs["c_length"] = self.scale_param(params.l, None)
+        if params.mult is not None:
+            kwargs["m"] = int(params.mult)
 
-        modparams = GF180CapParams(c_width=w, c_length=l)
+        modparams = GF180CapParams(**kwargs)
 
         modcall = mod(modparams)
         CACHE.cap_modcalls[params] = modcall
